@@ -382,32 +382,21 @@ fn replay(case: &Value, st: &mut Stats, seed: u64) {
     check_program(&p, st, 0, "replay");
 }
 
-pub fn run(args: &Args) -> i32 {
-    let mut ctx = crate::new_ctx("C01", args);
-    let seed = args.seed;
-    if let Some(path) = &args.replay {
-        return crate::props::replay_file(ctx, path, |c, st| replay(c, st, seed));
-    }
-    let thorough = args.tier.thorough();
-    ctx.rule = "E-PROD over writer programs: (1) length-1 full product kind x content x name x method/level x large x perm x time; \
-        (2) every 9-bit permission value x 3 kinds; (3) every date word x 3 time words and 3 date words x every time word; \
-        (4) every documented method/level pair x every content class; (5) all length-2 and length-3 (thorough: 4) entry lists over reduced \
-        alphabets x comment variants. Each program is executed twice (finish / drop) on the real writer and read back with the real \
-        seekable reader; the program is the reference model. distinct_nontrivial = distinct archive byte strings produced (hash set)."
-        .into();
-    ctx.assume("compressor internals (flate2/bzip2/zstd) are trusted; contents come from 5 (thorough 6) classes with seed-derived bytes");
-    ctx.uncovered("arbitrary multi-MiB contents beyond the listed classes; joint variation of all axes at length >= 2 (reduced alphabets); entry counts around 65535 are C08's");
-
+/// Enumerate the whole C01 program space, calling `f` on every program. Shared with C02.
+pub fn enumerate(thorough: bool, seed: u64, f: &(dyn Fn(&Program, u64, &str, &mut Stats) + Sync)) -> (Stats, serde_json::Map<String, Value>) {
+    let mut total_stats = Stats::default();
+    let mut bounds = serde_json::Map::new();
     let nm = names();
     let tms = times();
     let rml = reduced_ml();
     let perms = [None, Some(0u32), Some(0o777)];
     let n_content = if thorough { 6 } else { 5 };
+    let one = |e: E| Program { entries: vec![e], comment: None, comment_last: false };
 
     // (1) length-1 full product
     let rad = [3u64, n_content as u64, nm.len() as u64, rml.len() as u64, 2, 3, tms.len() as u64];
     let total: u64 = rad.iter().product();
-    ctx.bound("len1_product", json!({"kind":3,"content":n_content,"name":nm.len(),"method_level":rml.len(),"large":2,"perm":3,"time":tms.len(),"total":total}));
+    bounds.insert("len1_product".into(), json!({"kind":3,"content":n_content,"name":nm.len(),"method_level":rml.len(),"large":2,"perm":3,"time":tms.len(),"total":total}));
     let s = par_for(total, 8, |i, st| {
         let d = digits(i, &rad);
         let kind = d[0] as u8;
@@ -440,25 +429,23 @@ pub fn run(args: &Args) -> i32 {
             content,
             opts: FOpts { method: m, level: l, date: tms[d[6]].0, time: tms[d[6]].1, perm: perms[d[5]], large: d[4] == 1, password: None },
         };
-        let p = Program { entries: vec![e], comment: None, comment_last: false };
-        check_program(&p, st, i, "len1-product");
+        let p = one(e);
+        f(&p, i, "len1-product", st);
         if i == 7 {
             st.sample(p.to_json());
         }
     });
-    ctx.stats.merge(s);
-    eprintln!("  [C01] part 1 done at {:.1}s", ctx.elapsed());
+    total_stats.merge(s);
 
     // (2) all permission values x kinds
     let s = par_for(512 * 3, 16, |i, st| {
         let kind = (i / 512) as u8;
         let perm = (i % 512) as u32;
         let e = E { kind, name: "p".into(), content: b"xy".to_vec(), opts: FOpts { perm: Some(perm), ..FOpts::m(0) } };
-        check_program(&Program { entries: vec![e], comment: None, comment_last: false }, st, (1 << 32) + i, "perm-sweep");
+        f(&one(e), (1 << 32) + i, "perm-sweep", st);
     });
-    ctx.stats.merge(s);
-    eprintln!("  [C01] part 2 done at {:.1}s", ctx.elapsed());
-    ctx.bound("perm_sweep", json!("all 512 values x {file,dir,symlink}"));
+    total_stats.merge(s);
+    bounds.insert("perm_sweep".into(), json!("all 512 values x {file,dir,symlink}"));
 
     // (3) date/time sweeps
     let fixed_t = [0u16, 0x6000, 0xffff];
@@ -467,16 +454,15 @@ pub fn run(args: &Args) -> i32 {
         let w = w as u16;
         for &t in &fixed_t {
             let e = E { kind: 0, name: "t".into(), content: b"z".to_vec(), opts: FOpts { date: w, time: t, ..FOpts::m(0) } };
-            check_program(&Program { entries: vec![e], comment: None, comment_last: false }, st, (2 << 32) + w as u64, "date-sweep");
+            f(&one(e), (2 << 32) + w as u64, "date-sweep", st);
         }
         for &d in &fixed_d {
             let e = E { kind: 0, name: "t".into(), content: b"z".to_vec(), opts: FOpts { date: d, time: w, ..FOpts::m(0) } };
-            check_program(&Program { entries: vec![e], comment: None, comment_last: false }, st, (2 << 32) + w as u64, "time-sweep");
+            f(&one(e), (2 << 32) + w as u64, "time-sweep", st);
         }
     });
-    ctx.stats.merge(s);
-    eprintln!("  [C01] part 3 done at {:.1}s", ctx.elapsed());
-    ctx.bound("timestamp_sweep", json!("all 2^16 date words x 3 time words + 3 date words x all 2^16 time words"));
+    total_stats.merge(s);
+    bounds.insert("timestamp_sweep".into(), json!("all 2^16 date words x 3 time words + 3 date words x all 2^16 time words"));
 
     // (4) every documented method/level x content class
     let ml = all_method_levels();
@@ -484,14 +470,13 @@ pub fn run(args: &Args) -> i32 {
         let (m, l) = ml[i as usize / n_content];
         let e = E { kind: 0, name: "m".into(), content: content_class(i as usize % n_content, seed), opts: FOpts { level: l, ..FOpts::m(m) } };
         let p = Program { entries: vec![e], comment: Some(b"c".to_vec()), comment_last: true };
-        check_program(&p, st, (3 << 32) + i, "method-level");
+        f(&p, (3 << 32) + i, "method-level", st);
         if i == 40 {
             st.sample(p.to_json());
         }
     });
-    ctx.stats.merge(s);
-    eprintln!("  [C01] part 4 done at {:.1}s", ctx.elapsed());
-    ctx.bound("method_level", json!(format!("{} documented (method, level) pairs x {} content classes", ml.len(), n_content)));
+    total_stats.merge(s);
+    bounds.insert("method_level".into(), json!(format!("{} documented (method, level) pairs x {} content classes", ml.len(), n_content)));
 
     // (5) comments at length 0 and 1
     let comments: Vec<Option<Vec<u8>>> = vec![None, Some(vec![]), Some(b"c".to_vec()), Some(vec![b'k'; 65535]), Some("ü☃".as_bytes().to_vec())];
@@ -501,26 +486,25 @@ pub fn run(args: &Args) -> i32 {
         let last = (i as usize / comments.len()) % 2 == 1;
         let k = i as usize / (comments.len() * 2);
         let entries = if k == 0 { vec![] } else { vec![base[k - 1].clone()] };
-        check_program(&Program { entries, comment: c, comment_last: last }, st, (4 << 32) + i, "comments");
+        f(&Program { entries, comment: c, comment_last: last }, (4 << 32) + i, "comments", st);
     });
-    ctx.stats.merge(s);
-    eprintln!("  [C01] part 5 done at {:.1}s", ctx.elapsed());
+    total_stats.merge(s);
+    bounds.insert("comments".into(), json!("{none, empty, 1 byte, 65535 bytes, non-ASCII} x {set before, set after} x {no entry, each of 12 base entries}"));
 
     // (6) entry lists of length 2, 3 (4)
-    let (a2, a3, a4) = if thorough { (200usize, 30usize, 8usize) } else { (60, 12, 0) };
-    ctx.bound("lists", json!({"len2_alphabet": a2, "len3_alphabet": a3, "len4_alphabet": a4, "comment_variants": 2}));
+    let (a2, a3, a4) = if thorough { (120usize, 30usize, 8usize) } else { (40, 12, 0) };
+    bounds.insert("lists".into(), json!({"len2_alphabet": a2, "len3_alphabet": a3, "len4_alphabet": a4, "comment_variants": 2}));
     let alpha2 = entry_alphabet(seed, a2);
     let s = par_for((a2 * a2 * 2) as u64, 4, |i, st| {
         let c = if i % 2 == 0 { None } else { Some(b"two".to_vec()) };
         let j = (i / 2) as usize;
         let p = Program { entries: vec![alpha2[j / a2].clone(), alpha2[j % a2].clone()], comment: c, comment_last: false };
-        check_program(&p, st, (5 << 32) + i, "len2");
+        f(&p, (5 << 32) + i, "len2", st);
         if i == 1234 {
             st.sample(p.to_json());
         }
     });
-    ctx.stats.merge(s);
-    eprintln!("  [C01] part 6 done at {:.1}s", ctx.elapsed());
+    total_stats.merge(s);
     let alpha3 = entry_alphabet(seed, a3);
     let s = par_for((a3 * a3 * a3) as u64, 4, |i, st| {
         let j = i as usize;
@@ -529,10 +513,9 @@ pub fn run(args: &Args) -> i32 {
             comment: Some(b"3".to_vec()),
             comment_last: true,
         };
-        check_program(&p, st, (6 << 32) + i, "len3");
+        f(&p, (6 << 32) + i, "len3", st);
     });
-    ctx.stats.merge(s);
-    eprintln!("  [C01] part 7 done at {:.1}s", ctx.elapsed());
+    total_stats.merge(s);
     if a4 > 0 {
         let alpha4 = entry_alphabet(seed, a4);
         let s = par_for((a4 * a4 * a4 * a4) as u64, 4, |i, st| {
@@ -542,13 +525,39 @@ pub fn run(args: &Args) -> i32 {
                 comment: None,
                 comment_last: false,
             };
-            check_program(&p, st, (7 << 32) + i, "len4");
+            f(&p, (7 << 32) + i, "len4", st);
         });
-        ctx.stats.merge(s);
-    eprintln!("  [C01] part 8 done at {:.1}s", ctx.elapsed());
+        total_stats.merge(s);
+    }
+    (total_stats, bounds)
+}
+
+pub fn run(args: &Args) -> i32 {
+    let mut ctx = crate::new_ctx("C01", args);
+    let seed = args.seed;
+    if let Some(path) = &args.replay {
+        return crate::props::replay_file(ctx, path, |c, st| replay(c, st, seed));
+    }
+    let thorough = args.tier.thorough();
+    ctx.rule = "E-PROD over writer programs: (1) length-1 full product kind x content x name x method/level x large x perm x time; \
+        (2) every 9-bit permission value x 3 kinds; (3) every date word x 3 time words and 3 date words x every time word; \
+        (4) every documented method/level pair x every content class; (5) comment variants; (6) all length-2 and length-3 (thorough: 4) \
+        entry lists over reduced alphabets. Each program is executed twice (finish / drop) on the real writer and read back with the real \
+        seekable reader; the program is the reference model. distinct_nontrivial = distinct archive byte strings produced (hash set)."
+        .into();
+    ctx.assume("compressor internals (flate2/bzip2/zstd) are trusted; contents come from 5 (thorough 6) classes with seed-derived bytes");
+    ctx.uncovered("arbitrary multi-MiB contents beyond the listed classes; joint variation of all axes at length >= 2 (reduced alphabets); entry counts around 65535 are C08's");
+
+    let (s, bounds) = enumerate(thorough, seed, &|p, order, part, st| {
+        check_program(p, st, order, part);
+    });
+    ctx.stats.merge(s);
+    for (k, v) in bounds {
+        ctx.bound(&k, v);
     }
 
     // determinism: re-run a slice twice
+    let base = entry_alphabet(seed, 12);
     let mut a = Stats::default();
     let mut b = Stats::default();
     for k in 0..12 {
